@@ -101,15 +101,28 @@ pub struct Sty {
     pub w: u32,
     /// 0 Center, 1 Inside, 2 Outside
     pub al: u8,
+    /// stroke colour equal to the fill colour (default: two different colours)
+    #[serde(default, skip_serializing_if = "is_false")]
+    pub same: bool,
+}
+fn is_false(b: &bool) -> bool {
+    !*b
 }
 impl Sty {
+    pub fn stroke_color<C: TestColor>(&self) -> C {
+        if self.same {
+            C::FILL
+        } else {
+            C::STROKE
+        }
+    }
     pub fn build<C: TestColor>(&self) -> PrimitiveStyle<C> {
         let mut b = PrimitiveStyleBuilder::new().stroke_width(self.w).stroke_alignment(alignment(self.al));
         if self.fill {
             b = b.fill_color(C::FILL);
         }
         if self.stroke {
-            b = b.stroke_color(C::STROKE);
+            b = b.stroke_color(self.stroke_color::<C>());
         }
         b.build()
     }
@@ -123,6 +136,17 @@ impl Sty {
     }
 }
 
+/// fill and stroke in the same colour: width 1..=W x 3 alignments
+pub fn styles_same_color(max_w: u32) -> Vec<Sty> {
+    let mut v = vec![];
+    for w in 1..=max_w {
+        for al in 0..3u8 {
+            v.push(Sty { fill: true, stroke: true, w, al, same: true });
+        }
+    }
+    v
+}
+
 /// S(W): fill∈{none,set} × stroke colour∈{none,set} × width 0..=W × 3 alignments (width 0 once per colour pair)
 pub fn styles(max_w: u32) -> Vec<Sty> {
     let mut v = vec![];
@@ -133,7 +157,7 @@ pub fn styles(max_w: u32) -> Vec<Sty> {
                     if w == 0 && al != 0 {
                         continue;
                     }
-                    v.push(Sty { fill, stroke, w, al });
+                    v.push(Sty { fill, stroke, w, al, same: false });
                 }
             }
         }
